@@ -75,6 +75,13 @@ def listTree (occ : Option Occur) (o : Opd) (more : List PItem) : Ast CLeaf :=
 /-- a word as an operand -/
 def wordOpd (w : Str) : Opd := ⟨w, leafOf w, 1⟩
 
+/-- the body of a double-quoted phrase written without escapes: any characters except `"` and `\` -/
+def PhraseBody (body : Str) : Prop := ∀ c ∈ body, c ≠ '"' ∧ c ≠ '\\'
+
+/-- a double-quoted phrase as an operand -/
+def phraseOpd (body : Str) : Opd :=
+  ⟨'"' :: (body ++ ['"']), .leaf (.literal none body .double 0 false), 1⟩
+
 /-- a parenthesised operand list as an operand -/
 def groupOpd (lead : Nat) (occ : Option Occur) (o : Opd) (more : List PItem) (k : Nat) : Opd :=
   ⟨'(' :: printList lead occ o more k [')'], listTree occ o more, o.cost + needRest more + 3⟩
